@@ -12,9 +12,9 @@ cp $SRC/demo.py /verif/seeded/$SID/demo.py
 [ -f $SRC/notes.md ] && cp $SRC/notes.md /verif/seeded/$SID/notes.md
 cd $WT
 set +e
-/venv/bin/python /verif/seeded/$SID/demo.py > /tmp/confirm_$SID.clean.log 2>&1; CLEAN=$?
+PYTHONPATH=$WT /venv/bin/python /verif/seeded/$SID/demo.py > /tmp/confirm_$SID.clean.log 2>&1; CLEAN=$?
 git apply /verif/seeded/$SID/patch.diff || { echo "patch does not apply"; exit 3; }
-/venv/bin/python /verif/seeded/$SID/demo.py > /tmp/confirm_$SID.mut.log 2>&1; MUT=$?
+PYTHONPATH=$WT /venv/bin/python /verif/seeded/$SID/demo.py > /tmp/confirm_$SID.mut.log 2>&1; MUT=$?
 /venv/bin/python -m pytest -q -p no:cacheprovider --timeout=900 --continue-on-collection-errors --junitxml=/tmp/confirm_$SID.junit.xml > /dev/null 2>&1
 /venv/bin/python - $SID $PID $CLEAN $MUT <<'PY'
 import json, sys, xml.etree.ElementTree as ET, subprocess
